@@ -131,7 +131,10 @@ pub fn item_attrs(shape: &str, it: &Item) -> Option<Vec<(String, String)>> {
                 match shape {
                     "circle" => at.push(("r".into(), num(w / 2.0))),
                     _ => {
-                        if lx && ly && short {
+                        if lx && ly && !short && w == h && it.sp & 32 != 0 {
+                            // one radius for both axes
+                            at.push(("r".into(), num(w / 2.0)));
+                        } else if lx && ly && short {
                             at.push(("rxy".into(), pair(w / 2.0, h / 2.0, it.sp)));
                         } else {
                             if lx {
